@@ -1,0 +1,5 @@
+//go:build !verif
+
+package bondgo
+
+func verifYieldBondgo(point string) {}
